@@ -694,6 +694,26 @@ func genC20(seed uint64, tier string) *Case {
 			s.K, s.J = g.Pick(0, 2, 3), g.Pick(1, 2)
 		}
 		c.Steps = append(c.Steps, s)
+		if g.Bool(0.06) {
+			// a reset storm: one well-formed peer absurdly far away leaves an infinite sample in
+			// the adjustment window, so every following update starts over from scratch; during
+			// it one peer keeps reporting the same extreme (finite) error estimate
+			idx := func(f float64) int {
+				for i, v := range c20Floats {
+					if v == f {
+						return i
+					}
+				}
+				return 0
+			}
+			far := Step{Op: "ping", I: 3, D: 10e6, S: "wild", X: []int{idx([]float64{1e150, 1e308, -1e308}[g.Intn(3)]), 0, 0, 0, 0, 0, 0, 0}, K: idx(1), J: idx(1e-9), U: 0}
+			c.Steps = append(c.Steps, far)
+			liar := Step{Op: "ping", I: g.Intn(3), D: 1e6, S: "wild", X: []int{idx(0.001), 0, 0, 0, 0, 0, 0, 0}, K: idx([]float64{-1e308, 1e308, -1, 1e150}[g.Intn(4)]), J: idx(1e-9), U: 0}
+			for k := 0; k < 3+g.Intn(22); k++ {
+				c.Steps = append(c.Steps, liar)
+			}
+			i += 4
+		}
 	}
 	return c
 }
